@@ -17,7 +17,7 @@ def visCase (id tag : String) (s : Stmt) (v : Nat) : Case :=
   let o := visOptsOfNat v
   let text := String.ofList (renderS s)
   { id := id, op := "vis", args := visArgs text o,
-    exp := Json.str (String.ofList (Vis.visTop o (denoteTop s))), tag := tag,
+    exp := Json.str (String.ofList (Vis.visTop o (denoteLinked s))), tag := tag,
     note := Json.mkObj [("kf", ((if supported s then "" else "C02-regex-shape") : Json)), ("v", (v : Json))] }
 
 def optsOfArgs (a : Json) : Vis.VOpts :=
@@ -44,7 +44,13 @@ def judgeVis (onImplParse : Bool) (c : Case) (o : ObsLine) : Verdict :=
     let exp := if onImplParse then (visExpOnImplParse c o).getD ((c.exp.getStr?).toOption.getD "") else (c.exp.getStr?).toOption.getD ""
     if !valid then .violation "visual output is not valid JSON" got
     else if got ≠ exp then .disagree "visual output" exp got
-    else .ok
+    else
+      -- the printer agrees with the model on the implementation's parse; for statements of the
+      -- supported class the output must also be the one of the documented meaning
+      let spec := (c.exp.getStr?).toOption.getD ""
+      let kf := (c.note.getObjValAs? String "kf").toOption.getD ""
+      if onImplParse && kf = "" && spec ≠ "" && got ≠ spec then .disagree "visual output differs from the tree of the documented meaning" spec got
+      else .ok
   | "err" => .disagree "rejected" "" ("ERR " ++ o.code)
   | _ => .crash s!"{o.st}: {o.code}"
 
@@ -60,11 +66,19 @@ def genVisCases (tier : String) (seed : Nat) (tagp : String) : Array Case := Id.
         (do
           let g : GS Stmt := do
             let (c, pr) ← liftG (pick [(Sym.A, Sym.Ap), (Sym.Bdir, Sym.Bdirp), (Sym.Bind, Sym.Bindp)])
-            let i1 ← genFlatParts (← liftG (range 1 2)) 0
-            let i2 ← genFlatParts (← liftG (range 1 2)) 0
+            -- operator-free inner statements when an operator is written between them (class
+            -- `supported`); otherwise the inner statements may carry combinations with shared text
             let opw ← liftG (pick [none, some "[AND]", some "[OR]", some "[XOR]"])
+            let one ← liftG (chance 1 2)     -- a single nested property statement, with combinations and shared text inside
+            let dpt := if one then 2 else 0
+            let i1 ← genFlatParts (← liftG (range 1 3)) dpt
+            let i2 ← genFlatParts (← liftG (range 1 2)) dpt
             let mid : List Part := match opw with | some w => [Part.filler w.toList] | none => []
             let other ← genFlatParts 1 1 [c, pr]
+            if one then
+              return (Stmt.mk ([Part.ann { sym := c, anno := some "role=x".toList } true (.leaf (← genText)),
+                Part.ann { sym := pr, anno := some "prop=q".toList } true (.leaf (← genText))] ++ other ++
+                [Part.nested { sym := pr, anno := some "ctx=y".toList } (Stmt.mk i1)]))
             pure (Stmt.mk ([Part.ann { sym := c, anno := some "role=x".toList } true (.leaf (← genText)),
               Part.ann { sym := pr, anno := some "prop=q".toList } true (.leaf (← genText))] ++ other ++
               [Part.nested { sym := pr, anno := some "ctx=y".toList } (Stmt.mk i1)] ++ mid ++ [Part.nested { sym := pr } (Stmt.mk i2)]))
@@ -85,6 +99,26 @@ def genVisCases (tier : String) (seed : Nat) (tagp : String) : Array Case := Id.
     let kind := if i % 8 = 7 then "nested-properties" else if i % 8 = 3 then "private-properties" else if i % 3 = 0 then "simple" else if i % 3 = 1 then "nested" else "pairs"
     for v in [0:32] do
       out := out.push (visCase s!"{tagp}-{i}-{v}" kind s v)
+  pure out
+
+/-- for every nesting-capable symbol: a plain nested statement and a nested-statement combination
+    on it, next to the component it belongs to (properties: the component they qualify) -/
+def perSymbolVisCases (tagp : String) : Array Case := Id.run do
+  let mut out : Array Case := #[]
+  let mut k := 0
+  for x in Sym.nestables do
+    let inner := fun (t : String) => Stmt.mk [Part.ann { sym := Sym.A } true (.leaf (t ++ " actor").toList), Part.ann { sym := Sym.I } true (.leaf (t ++ " aim").toList)]
+    let baseName := if x.isProperty then x.name.take (x.name.length - 2) else x.name
+    let host : List Part := match Sym.simples.find? (fun (y : Sym) => y.name = baseName) with
+      | some y => [Part.ann { sym := y } true (.comb .AND (.leaf (str "value one")) (.leaf (str "value two")))]
+      | none => []
+    let s1 := Stmt.mk ([Part.ann { sym := Sym.D } true (.leaf (str "must"))] ++ host ++ [Part.nested { sym := x } (inner "single")])
+    let s2 := Stmt.mk ([Part.ann { sym := Sym.D } true (.leaf (str "must"))] ++ host ++
+      [Part.ncomb { sym := x } (.op .XOR (.one { sym := x } (inner "left")) (.one { sym := x } (inner "right")))])
+    for v in [2, 3, 16] do
+      out := out.push (visCase s!"{tagp}-sym{k}-a{v}" "per-symbol" s1 v)
+      out := out.push (visCase s!"{tagp}-sym{k}-b{v}" "per-symbol" s2 v)
+    k := k + 1
   pure out
 
 /-- texts that stress the JSON string escaping, one special character class per text -/
